@@ -26,6 +26,7 @@ NormItems(items) == [i \in 1..Len(items) |-> [items[i] EXCEPT !.meta = NormMeta(
 \* with ONE such character (however often) is judged under three readings: the model's own, the character as an ordinary
 \* letter (233), the character as a space -- or refused outright; the observation must be what one of them says.  (With several different such
 \* characters the readings multiply: termination only.)
+ExoticDigits == (65296..65305) \cup (2406..2415) \cup (1632..1641)
 ExoSet(s) == {s[i] : i \in {j \in 1..Len(s) : s[j] \in ExoticChars}}
 Sub(s, c, d) == [i \in 1..Len(s) |-> IF s[i] = c THEN d ELSE s[i]]
 SubItem(it, c, d) == [it EXCEPT !.root = Sub(@, c, d), !.acc = Sub(@, c, d), !.sym = Sub(@, c, d), !.broot = Sub(@, c, d), !.bacc = Sub(@, c, d),
@@ -40,6 +41,7 @@ ExoticOk(s, items, accepted) ==
   Cardinality(X) = 1 => LET c == CHOOSE x \in X : TRUE IN
                         \/ ~accepted        \* (a fourth reading: a character that does not belong in chord text at all)
                         \/ Reading(s, items, accepted, c, c) \/ Reading(s, items, accepted, c, 233) \/ Reading(s, items, accepted, c, 32)
+                        \/ (c \in ExoticDigits /\ Reading(s, items, accepted, c, 55))     \* (a digit of another script read as a digit)
 Inv == R.kind = "text" =>
          LET e == Expected(R.s) IN
          /\ R.terminated                                           \* no text makes the parser hang
@@ -53,7 +55,7 @@ Inv == R.kind = "text" =>
 LongReading(c, d) == LET b == Expected(Sub(R.base, c, d))  e == Expected(Sub(R.base \o <<10>> \o R.suffix, c, d)) IN
                      b.ok /\ R.accepted = e.ok /\ (R.accepted => R.nitems = (R.reps - 1) * Len(b.items) + Len(e.items))
 LongExoticOk == LET X == ExoSet(R.base \o R.suffix) IN
-                Cardinality(X) = 1 => LET c == CHOOSE x \in X : TRUE IN ~R.accepted \/ LongReading(c, c) \/ LongReading(c, 233) \/ LongReading(c, 32)
+                Cardinality(X) = 1 => LET c == CHOOSE x \in X : TRUE IN ~R.accepted \/ LongReading(c, c) \/ LongReading(c, 233) \/ LongReading(c, 32) \/ (c \in ExoticDigits /\ LongReading(c, 55))
 LongInv == R.kind = "long" =>
              LET b == Expected(R.base)  e == Expected(R.base \o <<10>> \o R.suffix) IN
              /\ b.ok                                     \* (the driver repeats a sentence)
